@@ -84,12 +84,13 @@ class AuditWatch:
             self.active = False
 
 
-def run_cli(argv, stdin_text=None):
+def run_cli(argv, stdin_text=None, stdin_bytes=None):
     """in-process CLI run -> (status, stdout, stderr)"""
     out, err = io.StringIO(), io.StringIO()
     old = sys.stdin, sys.stdout, sys.stderr
     # (a text stream over a byte stream, as the real standard input is: it has a .buffer)
-    sys.stdin = io.TextIOWrapper(io.BytesIO((stdin_text if stdin_text is not None else '').encode('utf-8')), encoding='utf-8', newline='')
+    raw = stdin_bytes if stdin_bytes is not None else (stdin_text if stdin_text is not None else '').encode('utf-8')
+    sys.stdin = io.TextIOWrapper(io.BytesIO(raw), encoding='utf-8', newline='')
     sys.stdout, sys.stderr = out, err
     try:
         try:
@@ -470,8 +471,13 @@ def malformed_targets(col, tmpdir):
         ('target-file-is-not-text:yaml-format', ['--target-format', 'yaml', '--target-file', binary2, 'a'], None),
         ('spec-file-is-not-text', ['--spec-file', binary2], '{"a": 1}'),
     ]
+    # the same bytes arriving on standard input (a UTF-8 stdin, as under any UTF-8 locale): unreadable there as well
+    unreadable += [('stdin-is-not-text:dash', ['a', '-'], b'{"a": "\xff\xfe"}'), ('stdin-is-not-text:implicit', ['a'], b'{"a": "\xff\xfe"}'),
+                   ('stdin-is-not-text:target-file-dash', ['--target-file', '-', 'a'], b'\x80abc'),
+                   ('stdin-is-not-text:python-format', ['--target-format', 'python', 'a', '-'], b"{'a': '\xff'}"),
+                   ('stdin-is-not-text:yaml-format', ['--target-format', 'yaml', 'a'], b'a: \xff\n')]
     for name, argv, stdin in unreadable:
-        status, out, err = run_cli(argv, stdin)
+        status, out, err = run_cli(argv, stdin) if not isinstance(stdin, bytes) else run_cli(argv, stdin_bytes=stdin)
         col.case(('unreadable', name), True)
         col.count('malformed_target_runs')
         col.count('unreadable_file_runs')
